@@ -2,9 +2,10 @@
    input  line: the characters of one source text as seen by the real tokenizer,
                 "cp.bits,cp.bits,..." (decimal code point; bits: 1 = is_newline, 2 = is_ident_start,
                 4 = is_ident_continue, 8 = is_digit(10), 16 = is_ascii_digit); empty line = empty text
-   output line: T<TAB>P   with
+   output line: T<TAB>P<TAB>D   with
                 T = Kind:start:len,...          (tokens of Model.tokenize)
                 P = i,i,..|k=i.i.i,k=..|k=..    (token_indices | leading map | trailing map, keys ascending)
+                D = j,j,...                      (trivia token indices with PreLemmas.dropped toks j = true: the F5 class)
                 or FUEL when the model runs out of fuel *)
 open Lex_model
 let rec p_of_int i = if i = 1 then XH else if i land 1 = 0 then XO (p_of_int (i / 2)) else XI (p_of_int (i / 2))
@@ -44,6 +45,12 @@ let show_pre pp =
     (String.concat "," (List.map (fun i -> string_of_int (int_of_n i)) pp.pp_token_indices))
     (show_map pp.pp_leading) (show_map pp.pp_trailing)
 
+let rec nat_of_int i = if i = 0 then O else S (nat_of_int (i - 1))
+let show_dropped toks =
+  let js = List.filteri (fun _ _ -> true) (List.mapi (fun j t -> (j, t)) toks) in
+  String.concat "," (List.filter_map (fun (j, t) ->
+      if is_trivia t && dropped toks (nat_of_int j) then Some (string_of_int j) else None) js)
+
 let () =
   let out = Buffer.create 65536 in
   (try
@@ -53,7 +60,8 @@ let () =
        | None -> Buffer.add_string out "FUEL\n"
        | Some (toks, pp) ->
            Buffer.add_string out (show_tokens toks); Buffer.add_char out '\t';
-           Buffer.add_string out (show_pre pp); Buffer.add_char out '\n');
+           Buffer.add_string out (show_pre pp); Buffer.add_char out '\t';
+           Buffer.add_string out (show_dropped toks); Buffer.add_char out '\n');
       if Buffer.length out > 60000 then (print_string (Buffer.contents out); Buffer.clear out)
     done
   with End_of_file -> ());
